@@ -269,7 +269,7 @@ PROPS["C20"] = dict(
     rule="random sequences of up to 32 events per wrapper: state/command written on the connected external terminal or on the wrapper's own "
          "terminal, inner settable accepting/rejecting, inner update ok/erroring, inner getter present/absent/erroring, disconnect, update; "
          "the values received by the recording inner settable / motor and the terminal contents are compared with the model; for the PID "
-         "wrapper the model's motor value IS the stand-alone CommandPID model fed the same (time,state,command) sequence (theorem)",
+         "wrapper the model's motor value IS the stand-alone CommandPID model fed the same (time,state,command) sequence (theorem) + the wrapper's own terminal FOLLOWING scripted getters (actuator and encoder wrapper): update_terminals()? first / right after the inner update, follower error ends the update, compared in full with the model",
     trusted_base=DEV_TB,
     assumptions=COMMON_AS,
 )
